@@ -398,6 +398,29 @@ def _r09f(rep, hs):
     sel = ext[0].args[0]
     sel_ok = any(isinstance(c, ast.Call) and core.src(c.func) == "get_lattice_vector_equivalence" for c in ast.walk(defs.get(sel.id, sel) if isinstance(sel, ast.Name) else sel))
     el = elements(ext[0].args[1])
+    if el is None and sel_ok:
+        # another spelling (vectorised): evaluate the compatibility flags on symbolic mesh numbers and shift flags;
+        # each must be a conjunction of equalities between two axes
+        from engine import symnp
+
+        msym = [sp.Symbol(f"m{i}") for i in range(3)]
+        ssym = [sp.Symbol(f"s{i}") for i in range(3)]
+        evl = symnp.Evaluator({"self._mesh": msym, "self._is_shift": ssym}, where="GridPoints._has_mesh_symmetry")
+        symnp.run_block(evl, symnp.backward_slice([st for st in hs.body if not isinstance(st, (ast.If, ast.Return))], ext[0].args[1], opaque=("np",)))
+        flags = evl.ev(ext[0].args[1])
+        if symnp.shape(flags) != (3,):
+            raise AnalysisError(f"R09f: the compatibility flags of _has_mesh_symmetry have shape {symnp.shape(flags)}")
+        el = []
+        for fl in flags:
+            got_ = set()
+            for atom in (fl.args if isinstance(fl, sp.And) else [fl]):
+                if not (isinstance(atom, sp.Eq) and all(isinstance(x, sp.Symbol) for x in atom.args)):
+                    raise AnalysisError(f"R09f: compatibility flag '{fl}' is not a conjunction of equalities between axes")
+                a_, b_ = (str(x) for x in atom.args)
+                if a_[0] != b_[0]:
+                    raise AnalysisError(f"R09f: compatibility flag '{fl}' compares a mesh number with a shift flag")
+                got_.add(("self._mesh" if a_[0] == "m" else "self._is_shift", frozenset((int(a_[1]), int(b_[1])))))
+            el.append(got_)
     if el is None or not sel_ok:
         raise AnalysisError("R09f: the compatibility list of _has_mesh_symmetry is not a three-element list of comparisons")
     for k, (want, got) in enumerate(zip(PAIRS, el)):
@@ -824,6 +847,8 @@ def selftest():
     V.append(dict(name="compiled thermal sums: multiplicity through an integer local", kind="neutral", edits=[
         dict(file="c/phonopy.c", old="                    tp[i * num_temp * 3 + j * 3] +=\n                        get_free_energy(temperatures[j], f, classical) *\n                        weights[i];", new="                    k_w = weights[i];\n                    tp[i * num_temp * 3 + j * 3] +=\n                        get_free_energy(temperatures[j], f, classical) *\n                        k_w;"),
         dict(file="c/phonopy.c", old="    int64_t i, j, k;\n    double f;\n    double *tp;", new="    int64_t i, j, k, k_w;\n    double f;\n    double *tp;")]))
+    b("axis-pair compatibility vectorised in the order a~b, b~c, c~a", GP, "        m = self._mesh\n        s = self._is_shift\n        mesh_equiv = [\n            m[1] == m[2] and s[1] == s[2],\n            m[2] == m[0] and s[2] == s[0],\n            m[0] == m[1] and s[0] == s[1],\n        ]\n", "        grid = np.c_[self._mesh, np.array(self._is_shift, dtype=\"intc\")]\n        mesh_equiv = (grid == np.roll(grid, -1, axis=0)).all(axis=1)\n", "R09f", "_has_mesh_symmetry")
+    n("axis-pair compatibility vectorised in the order b~c, c~a, a~b", GP, "        m = self._mesh\n        s = self._is_shift\n        mesh_equiv = [\n            m[1] == m[2] and s[1] == s[2],\n            m[2] == m[0] and s[2] == s[0],\n            m[0] == m[1] and s[0] == s[1],\n        ]\n", "        grid = np.c_[self._mesh, np.array(self._is_shift, dtype=\"intc\")]\n        mesh_equiv = (np.roll(grid, -1, axis=0) == np.roll(grid, -2, axis=0)).all(axis=1)\n")
     b("thermal sum forgets the weight", "phonopy/phonon/thermal_properties.py", "                    np.sum(func(t, freqs[cond], classical=self._classical)) * w\n", "                    np.sum(func(t, freqs[cond], classical=self._classical))\n", "R09d", "_calculate_thermal_property")
     b("thermal displacement accepts a reduced mesh", API, "        if np.prod(mesh_nums) != len(ir_grid_points):\n            msg = \"run_mesh has to be done with is_mesh_symmetry=False.\"\n            raise RuntimeError(msg)\n\n        if direction is not None:\n            projection_direction", "        if direction is not None:\n            projection_direction", "R09d", "run_thermal_displacements")
     MO = "phonopy/phonon/moment.py"
